@@ -14,6 +14,5 @@ INVARIANT TypeOK
 INVARIANT SequentiallyValid
 INVARIANT ImplEqualsEd
 INVARIANT TargetReached
-INVARIANT StructureConsistent
 INVARIANT CorruptRaises
 CHECK_DEADLOCK FALSE
